@@ -661,3 +661,93 @@ def guarded(fn, *args, timeout=10):
     if res[0] == "exc":
         raise RuntimeError("guarded call failed: " + res[1])
     return res
+
+
+def guarded_cases(fn, cases, timeout=20, max_restarts=8, stop=None):
+    """fn(case, note) for every case, in a forked child that streams one result
+    per case back to the parent.  `note(text)` may be called by fn before a
+    risky call: the last note of a case that never returned is reported with
+    the crash.  A crash of the code under test (signal) or a hang (SIGALRM
+    after `timeout` seconds in one case) becomes the outcome of the case that
+    was running; a fresh child resumes with the next case (at most
+    max_restarts times).  `stop(results_so_far)` -> True ends the run early
+    (checked in the parent after each child; in the child via the result of fn:
+    a result dict with a true 'stop' key ends that child).
+    -> list parallel to `cases` of ('ok', result) | ('crash', signo, last note) | ('skipped',)"""
+    import pickle
+    import signal
+    import struct
+    cases = list(cases)
+    results = [("skipped",)] * len(cases)
+    start, restarts = 0, 0
+    while start < len(cases) and restarts <= max_restarts:
+        r, w = os.pipe()
+        pid = os.fork()
+        if pid == 0:
+            os.close(r)
+            signal.signal(signal.SIGALRM, signal.SIG_DFL)
+
+            def send(obj):
+                data = pickle.dumps(obj)
+                data = struct.pack("<I", len(data)) + data
+                while data:
+                    data = data[os.write(w, data):]
+            try:
+                for i in range(start, len(cases)):
+                    signal.alarm(timeout)
+                    send(("at", i, None))
+                    try:
+                        res = fn(cases[i], lambda text, i=i: send(("at", i, text)))
+                    except BaseException as e:       # a bug of the stand-in itself: reported, re-raised by the parent
+                        import traceback
+                        send(("err", i, "%s: %s\n%s" % (type(e).__name__, e, traceback.format_exc())))
+                        break
+                    send(("res", i, res))
+                    if isinstance(res, dict) and res.get("stop"):
+                        send(("end", i, None))
+                        break
+                else:
+                    send(("end", len(cases), None))
+            finally:
+                os._exit(0)       # no interpreter shutdown: damaged containers are never deallocated
+        os.close(w)
+        chunks = []
+        while True:
+            c = os.read(r, 1 << 16)
+            if not c:
+                break
+            chunks.append(c)
+        os.close(r)
+        buf = b"".join(chunks)
+        status = os.waitpid(pid, 0)[1]
+        cur, note, ended, err = None, None, False, None
+        pos = 0
+        while len(buf) - pos >= 4:
+            n = struct.unpack_from("<I", buf, pos)[0]
+            if len(buf) - pos < 4 + n:
+                break
+            kind, i, payload = pickle.loads(buf[pos + 4:pos + 4 + n])
+            pos += 4 + n
+            if kind == "at":
+                cur, note = i, payload
+            elif kind == "res":
+                results[i] = ("ok", payload)
+                cur = None
+            elif kind == "err":
+                err = payload
+            elif kind == "end":
+                ended = True
+        if err:
+            raise RuntimeError("guarded case failed in the stand-in itself: " + err)
+        if ended:
+            break
+        if cur is None:              # died between cases (or before the first): nothing to blame
+            if os.WIFSIGNALED(status):
+                raise RuntimeError("guarded child died outside a case (signal %d)" % os.WTERMSIG(status))
+            break
+        results[cur] = ("crash", os.WTERMSIG(status) if os.WIFSIGNALED(status) else 0, note)
+        start = cur + 1
+        restarts += 1
+        if stop is not None and stop(results):
+            break
+    return results
